@@ -1,5 +1,6 @@
 """C05 — a metric vector keeps exactly one child per distinct label-value tuple."""
 import itertools
+import random
 from grpb import *
 from grpa import mc_module
 from chars import *
@@ -168,6 +169,11 @@ def run(ctx):
         br = run_api(ctx, exe, [{"id": j["id"], "calls": j["calls"]} for j in bj], "bulk", nproc=3)
         nb += sum(1 for j in bj if bulk.judge_vec(ctx, j, br[j["id"]], "scale"))
     ctx.cov["scale_scenarios_conforming"] = nb
+    # tuples that are close to each other in every way a key function could confuse, all in one vector
+    aj = bulk.adversarial_vec_jobs(random.Random(ctx.seed * 13 + 5), ctx.quick)
+    ar = run_api(ctx, exe, [{"id": j["id"], "calls": j["calls"]} for j in aj], "adv", nproc=4)
+    ctx.cov["adversarial_pool_tuples"] = sum(len(j["tuples"]) for j in aj)
+    ctx.cov["adversarial_pools_conforming"] = sum(1 for j in aj if bulk.judge_adversarial(ctx, j, ar[j["id"]], "pool"))
     ctx.cov.update({
         "traces_validated_against_impl": nok,
         "pairs": len(cases), "executions": len(jobs) + len(mal), "executions_conforming": nok,
